@@ -28,7 +28,7 @@ def kernel_table(shape, h: float) -> np.ndarray:
 
 
 class GreenModel:
-    def __init__(self, shape, x_range: float, real_t) -> None:
+    def __init__(self, shape, x_range: float, real_t, dense_cap: int = 2000) -> None:
         self.shape = tuple(shape)
         self.dim = len(shape)
         # the documented spacing: x_range / n_x, as representable in the working precision
@@ -36,6 +36,9 @@ class GreenModel:
         self.tab = kernel_table(self.shape, self.h)
         self.gmax = float(np.max(np.abs(self.tab)))
         self.vol = self.h**self.dim
+        self.op = None
+        if int(np.prod(self.shape)) > dense_cap:
+            return  # large grid: direct summation over the non-zero source cells only (sparse rhs)
         # dense operator, built once: A[i, j] = tab[|i - j|]
         idx = [np.arange(n) for n in self.shape]
         seps = [np.abs(ix[:, None] - ix[None, :]) for ix in idx]
@@ -51,6 +54,16 @@ class GreenModel:
         self.op = np.ascontiguousarray(a.reshape(n, n))
 
     def solve(self, rhs: np.ndarray) -> np.ndarray:
+        if self.op is None:
+            f = np.asarray(rhs, dtype=np.float64)
+            out = np.zeros(self.shape)
+            nz = np.argwhere(f != 0)
+            if len(nz) > 64:
+                raise ValueError("large-grid model needs a sparse right-hand side")
+            for cell in nz:
+                seps = [np.abs(np.arange(n) - c) for n, c in zip(self.shape, cell, strict=True)]
+                out += f[tuple(cell)] * self.tab[np.ix_(*seps)]
+            return out * self.vol
         f = np.asarray(rhs, dtype=np.float64).reshape(-1)
         return (self.op @ f).reshape(self.shape) * self.vol
 
